@@ -41,6 +41,8 @@ EvalClauses(e) ==
                       ELSE e.con[i] = G.nodes[M.constraints[i]].ref
                THEN {} ELSE {"C17.constraint_value_wrong"})
          \cup (IF \A p \in SeqSet(e.stored) : p[2] = Given(e, p[1]) THEN {} ELSE {"C17.stored_metric_value_wrong"})
+         \* every metric node of the architecture has a stored value after an evaluation (NaN when the evaluator gave none)
+         \cup (IF \A m \in MetIds(G) \cap SeqSet(e.nodes) : \E p \in SeqSet(e.stored) : p[1] = m THEN {} ELSE {"C17.metric_value_not_stored"})
 
 Init == tid \in DOMAIN Traces /\ l = 1 /\ fails = {}
 Step == /\ l <= N
